@@ -103,6 +103,9 @@ def prefix_sid(tokeniser: Any) -> PrefixSid:  # noqa: C901
             label_sid = tokeniser()
             while True:
                 value = tokeniser()
+                if value == '':
+                    # end of the text: the tokeniser keeps answering '' and this loop never ended
+                    raise ValueError("missing ']'")
                 if value == '[':
                     consume_extra = True
                     continue
@@ -111,6 +114,8 @@ def prefix_sid(tokeniser: Any) -> PrefixSid:  # noqa: C901
                 if value == '(':
                     while True:
                         value = tokeniser()
+                        if value == '':
+                            raise ValueError("missing ')'")
                         if value == ')':
                             break
                         if value == ',':
@@ -126,6 +131,9 @@ def prefix_sid(tokeniser: Any) -> PrefixSid:  # noqa: C901
                     continue
                 if value == ']':
                     break
+        else:
+            # the label index alone, without brackets: label_sid was never set (UnboundLocalError)
+            label_sid = value
         if consume_extra:
             tokeniser()
     except Exception as e:
@@ -136,7 +144,7 @@ def prefix_sid(tokeniser: Any) -> PrefixSid:  # noqa: C901
     sr_attrs.append(SrLabelIndex.make_labelindex(int(label_sid)))
 
     for srgb in srgb_data:
-        if len(srgb) == SRGB_TUPLE_SIZE and int(srgb[0]) < pow(2, 24) and int(srgb[1]) < pow(2, 24):
+        if len(srgb) == SRGB_TUPLE_SIZE and 0 <= int(srgb[0]) < pow(2, 24) and 0 <= int(srgb[1]) < pow(2, 24):
             srgbs.append((int(srgb[0]), int(srgb[1])))
         else:
             raise ValueError('could not parse SRGB tupple')
